@@ -76,9 +76,11 @@ theorem mna_iff_laws (kind : Kind) (s : K) (cs : List (Cpt K)) (x : Ix → K) (h
       intro c _
       exact stamp_branch_row kind s c x m
 
-/-- the same statement for phasor analysis: AC analysis at angular frequency ω is the Laplace
-    analysis at the point s = jω (here `j` is any element with j² = −1 of the carrier). -/
-theorem mna_iff_laws_ac (j ω : K) (_hj : j * j = -1) (cs : List (Cpt K)) (x : Ix → K) (hwf : WF cs) :
+/-- `mna_iff_laws` at the point s = j·ω.  Nothing here is specific to phasors: AC analysis at angular frequency ω IS the
+    Laplace analysis at s = jω in this model (`j` any element of the carrier, e.g. the imaginary unit of ℚ(j)); what makes an
+    analysis a phasor analysis -- source values given as phasors V·e^{jφ} -- is the front-end's `srcValue`, tied by the
+    correspondence. -/
+theorem mna_iff_laws_ac (j ω : K) (cs : List (Cpt K)) (x : Ix → K) (hwf : WF cs) :
     Solves .lap (j * ω) cs x ↔ Laws .lap (j * ω) cs x :=
   mna_iff_laws .lap (j * ω) cs x hwf
 
@@ -154,9 +156,9 @@ theorem mna_unique (kind : Kind) (s : K) (cs : List (Cpt K)) (x y : Ix → K)
     ∀ i, Unknown kind s cs i → x i = y i :=
   mna_unique_on _ kind s cs x y hns hx hy
 
-/-- **solver_independent**: any two procedures that return a solution of the assembled system
-    (DM, LU, GE, ADJ, … are all such procedures when they succeed) return the same node voltages
-    and branch currents on every non-singular circuit. -/
+/-- **solver_independent**: `mna_unique` RESTATED for two arbitrary procedures that return a solution of the assembled system.
+    No solver (DM, LU, GE, ADJ, …) is modelled: that each of Lcapy's methods returns a solution when it succeeds is checked by
+    the oracle on the real code (every method against `Laws` / against DM), not proved. -/
 theorem solver_independent (kind : Kind) (s : K) (cs : List (Cpt K))
     (solver₁ solver₂ : List (Cpt K) → Ix → K)
     (h₁ : Solves kind s cs (solver₁ cs)) (h₂ : Solves kind s cs (solver₂ cs))
